@@ -38,6 +38,13 @@ Example C17_nonvacuous :
   [72;97;115;104;101;114;32;123;32;102;108;97;103;115;58;32;49;54;44;32;112;108;97;116;102;111;114;109;58;32;65;86;88;50;32;125].
 Proof. vm_compute. reflexivity. Qed.
 
+(* the functions of the modelled source are exactly the functions the model was written against
+   (gen/GenApi.v is regenerated from /repo on every run; see Model/ApiSurface.v) *)
+From V Require gen.GenApi Model.ApiSurface.
+Theorem C17_api_lib_secret : GenApi.api_lib_secret = ApiSurface.expected_lib_secret.
+Proof. reflexivity. Qed.
+
+Print Assumptions C17_api_lib_secret.
 Print Assumptions C17_debug_hasher_public.
 Print Assumptions C17_debug_hasher_ignores_secrets.
 Print Assumptions C17_debug_reader_public.
